@@ -154,6 +154,50 @@ func H_FileStream_ReadAll() {
 	check(got, err, p, data, "ReadAll")
 }
 
+// chunkReader hands out at most `chunk` bytes per Read although more follow (a
+// pipe, a terminal, a network file system): a legitimate io.Reader.
+type chunkReader struct {
+	data  []byte
+	pos   int
+	chunk int
+}
+
+func (s *chunkReader) Read(p []byte) (int, error) {
+	if s.pos >= len(s.data) {
+		return 0, io.EOF
+	}
+	n := s.chunk
+	if n > len(p) {
+		n = len(p)
+	}
+	if n > len(s.data)-s.pos {
+		n = len(s.data) - s.pos
+	}
+	copy(p, s.data[s.pos:s.pos+n])
+	s.pos += n
+	return n, nil
+}
+
+// H_FileStream_ShortReads: the same bytes read in pieces of 1, 2 or 3 bytes
+// decode to the same text (or are rejected) as when read in one block.
+func H_FileStream_ShortReads() {
+	N := 4
+	if zv.Tier() == 1 {
+		N = 5
+	}
+	data := symBytes(N)
+	chunk := 1 + zv.Choose(3)
+	f := zio.ZZVerifNewFileStream(&chunkReader{data: data, chunk: chunk})
+	var got []rune
+	var err error
+	var p interface{}
+	func() {
+		defer func() { p = recover() }()
+		got, err = f.ReadAll()
+	}()
+	check(got, err, p, data, "short reads")
+}
+
 // H_ByteStream: input-variable text / script sources.
 func H_ByteStream() {
 	N := 3
